@@ -61,8 +61,9 @@ law = Eq(filter_function, band_stop_distortion / bandwidth_distortion)
 @validate_output(filter_order)
 def calculate_order(filter_function_: Expr, band_stop_frequency_: Quantity,
     bandwidth_distortion_: float, band_stop_distortion_: float) -> int:
-    result_expr = law.subs({
-        filter_function: filter_function_,
+    # filter function can depend on the band-stop frequency symbol, apply it before other values
+    applied_law = law.subs(filter_function, filter_function_)
+    result_expr = applied_law.subs({
         band_stop_frequency: band_stop_frequency_,
         bandwidth_distortion: bandwidth_distortion_,
         band_stop_distortion: band_stop_distortion_,
